@@ -80,8 +80,12 @@ Arr(e) == [t |-> "arr", e |-> e]
 Obj(m) == [t |-> "obj", m |-> m]
 
 \* the name with the case of its letters flipped, and with '_' inserted
-Flip(name) == [i \in 1..Len(name) |-> IF name[i] \in 97..122 THEN name[i] - 32
-                                       ELSE IF name[i] \in 65..90 THEN name[i] + 32 ELSE name[i]]
+FlipCp(c) == IF \E s \in FF!FoldSets : c \in s
+             THEN LET s == CHOOSE x \in FF!FoldSets : c \in x IN
+                  \* the largest other member of the fold set (for k: the Kelvin sign)
+                  CHOOSE m \in s \ {c} : \A y \in s \ {c} : y <= m
+             ELSE IF c \in 97..122 THEN c - 32 ELSE IF c \in 65..90 THEN c + 32 ELSE c
+Flip(name) == [i \in 1..Len(name) |-> FlipCp(name[i])]
 Under(name) == IF name = <<>> THEN <<95>> ELSE <<name[1], 95>> \o Tail(name)
 
 IntInputs(t, d) ==
